@@ -946,6 +946,26 @@ NSATTR_POOL = [('[x|k]', {'x': NS_X}), ('[x|k]', {'x': NS_Y}), ('[n|k="1"]', {'n
                (':not([x|k])', {'x': NS_X}), ('[x|k], x|item', {'x': NS_Y}), ('* > [x|k]', {'x': NS_X})]
 
 
+def numeric_neighbour(rng, pattern):
+    """The same pattern with ONE number changed by one (nth coefficients and offsets, argument counts); None when the
+    pattern has no number.  -1 / -2 are the classic hash twins."""
+
+    import re
+    ms = [m for m in re.finditer(r'(?<![\w"\'#.\[=\\])(-?\d+|-)(?=n)|(?<=n)\s*([+-])\s*(\d+)|\((\d+)(?=[\s)])', pattern)]
+    if not ms:
+        return None
+    m = ms[rng.randrange(len(ms))]
+    d = rng.choice([1, -1])
+    if m.group(1) is not None:
+        v = -1 if m.group(1) == '-' else int(m.group(1))
+        return pattern[:m.start(1)] + str(v + (d if v + d != 0 else 2 * d)) + pattern[m.end(1):]
+    if m.group(3) is not None:
+        v = int(m.group(2) + m.group(3)) + d
+        return pattern[:m.start()] + ('%+d' % v) + pattern[m.end():]
+    v = max(0, int(m.group(4)) + d)
+    return pattern[:m.start(4)] + str(v) + pattern[m.end(4):]
+
+
 def feature_key(rng, feat):
     """A key spec (pattern + namespace map) from the pool aligned with a document feature."""
     if feat == 'nsattr':
